@@ -76,6 +76,19 @@ def limit_programs():
         out.append(("limit:upvalues:%d" % n, "fn outer() {\n%s\nfn inner() { return %s; }\nreturn inner();\n}\nprint(\"done\");\n" % (
             "\n".join("var l%d = %d;" % (i, i) for i in range(min(n, 250))), " + ".join("l%d" % i for i in range(min(n, 250)))), {}))
         out.append(("limit:interp:%d" % n, "var a = 1;\nprint(\"%s\".len());\n" % "".join("${a}" for _ in range(n)), {}))
+        # exactly n parts in three more shapes: literal/interpolation alternating, ending in a literal or in an interpolation, starting with either
+        for shape in ("li", "il", "lil"):
+            parts = []
+            k = 0
+            while len(parts) < n:
+                want_lit = (shape[0] == "l") == (k % 2 == 0)
+                parts.append("x" if want_lit else "${a}")
+                k += 1
+            if shape == "lil" and parts[-1] != "x":
+                parts[-1] = "x" if parts[-2] != "x" else "${a}"
+            text = "".join(parts)
+            value = text.replace("${a}", "1")
+            out.append(("limit:interpshape:%s:%d:%s" % (shape, n, value), "var a = 1;\nvar i = 0;\nvar s = \"\";\nwhile i < 70 { s = \"%s\"; i = i + 1; }\nprint(s);\n" % text, {}))
     for n in (65534, 65535, 65536, 65537):
         # constants: distinct number literals in one function
         out.append(("limit:constants:%d" % n, "var s = 0;\n" + "".join("s = %d.5;\n" % i for i in range(n - 3)) + "print(\"done\");\n", {}))
@@ -169,6 +182,8 @@ def correspondence(ctx, model_ok=True):
         expect = {"jump": ["done"], "loop": ["2", "done"], "try": ["caught", "done"]}.get(kind)
         if r.get("status") == "err" and r.get("kind") == "CompileError":
             ok = True
+        elif r.get("status") == "ok" and kind == "interpshape":
+            ok = r.get("printed") == [name.split(":")[4]]
         elif r.get("status") == "ok":
             ok = (r.get("printed") == expect) if expect else True
         else:
